@@ -416,6 +416,8 @@ class BaseOdeModel(object):
         else:
             raise InputError("Expecting a list")
 
+        # the symbols handed to the compiler follow the declared lists
+        self.set_sp()
         self._hasNewTransition.trip()
 
     @property
@@ -450,6 +452,8 @@ class BaseOdeModel(object):
         else:
             raise InputError("Expecting a list")
 
+        # the symbols handed to the compiler follow the declared lists
+        self.set_sp()
         self._hasNewTransition.trip()
 
     @property
